@@ -253,6 +253,7 @@ type nmOp struct {
 	CfgVal  []byte      `json:"cfgval,omitempty"`
 	Signers []int       `json:"signers"` // -1 = committee (Alphabet), i = node i
 	Join    bool        `json:"join,omitempty"` // same block as the next operation
+	Light   bool        `json:"light,omitempty"` // C08 warm-up tick: only the short projection is read
 }
 
 func (o nmOp) String() string {
@@ -1247,6 +1248,9 @@ func projC08(n *nmEnv, tr *nmTrack, op nmOp) []nmQuery {
 	if op.Kind != "newEpoch" && op.Kind != "updateSnapshotCount" {
 		return append(qs, nmQuery{kind: "QCandidates"}, nmQuery{kind: "QListCandidates"})
 	}
+	if op.Light {
+		return append(qs, nmQuery{kind: "QSnapshot", z: 0}, nmQuery{kind: "QSnapshot", z: 1}, nmQuery{kind: "QListNodes", z: tr.epoch})
+	}
 	for d := int64(-1); d <= tr.count+1; d++ {
 		qs = append(qs, nmQuery{kind: "QSnapshot", z: d})
 	}
@@ -1467,10 +1471,11 @@ func (g *nmGen) nextC07(step int, tr *nmTrack) nmOp {
 // planC08 builds a history of the quantifier's scope: resize to `first`,
 // `ticks1` consecutive epochs with distinct candidate sets, resize to
 // `second`, `ticks2` epochs, optionally a third resize and more epochs.
-func (g *nmGen) planC08(counts []int64, ticks []int) {
+func (g *nmGen) planC08(counts []int64, ticks []int, lightWarmup bool) {
 	n := g.n
 	epoch := int64(0)
 	nn := len(n.nodes)
+	light := false
 	tick := func() {
 		epoch++
 		i := int(epoch) % nn
@@ -1491,13 +1496,15 @@ func (g *nmGen) planC08(counts []int64, ticks []int) {
 		if g.r.Intn(12) == 0 {
 			g.plan = append(g.plan, nmOp{Kind: "newEpoch", Epoch: epoch, Signers: []int{i}}) // not the Alphabet: inert
 		}
-		g.plan = append(g.plan, nmOp{Kind: "newEpoch", Epoch: epoch, Signers: al})
+		g.plan = append(g.plan, nmOp{Kind: "newEpoch", Epoch: epoch, Signers: al, Light: light})
 	}
 	for k := 0; k < len(ticks); k++ {
 		if k < len(counts) {
 			g.plan = append(g.plan, nmOp{Kind: "updateSnapshotCount", Count: counts[k], Signers: al})
 		}
 		for j := 0; j < ticks[k]; j++ {
+			// warm-up ticks long before the next resize are observed through the short projection
+			light = lightWarmup && k+1 < len(counts) && j < ticks[k]-2
 			tick()
 		}
 	}
@@ -1637,7 +1644,7 @@ func runNetmapFamily(t *testing.T, prop string) {
 	if thorough {
 		fs.perFile = 100
 		if prop == "C08" {
-			fs.perFile = 50
+			fs.perFile = 90
 		}
 	}
 	old, _ := filepath.Glob(filepath.Join(OutDir(), "cases_"+prop+"*.v"))
@@ -1748,6 +1755,7 @@ func runNetmapFamily(t *testing.T, prop string) {
 		type pt struct {
 			counts []int64
 			ticks  []int
+			light  bool
 		}
 		var pts []pt
 		r := Rng(77)
@@ -1785,7 +1793,7 @@ func runNetmapFamily(t *testing.T, prop string) {
 						continue
 					}
 					for pos := int64(0); pos < old; pos++ {
-						pts = append(pts, pt{counts: []int64{old, nw}, ticks: []int{0, int(old + pos), int(nw) + 2}})
+						pts = append(pts, pt{counts: []int64{old, nw}, ticks: []int{0, int(old + pos), int(nw) + 2}, light: true})
 					}
 				}
 			}
@@ -1811,7 +1819,7 @@ func runNetmapFamily(t *testing.T, prop string) {
 			r := Rng(int64(hi) + 5000)
 			n := newNmEnv(t, Rng(-1), false, 0, nNodes) // same node keys in every history: maps are shared in the case file
 			g := &nmGen{r: r, n: n, prop: prop}
-			g.planC08(p.counts, p.ticks)
+			g.planC08(p.counts, p.ticks, p.light)
 			m := newNmMon(prop, st, n)
 			h := nmRunHistory(t, n, fs.file(), proj, m, func(step int, tr *nmTrack) (nmOp, bool) {
 				if step >= len(g.plan) {
